@@ -1,4 +1,5 @@
 import Bxh.Proofs.ChainLinked
+import Bxh.Proofs.LedgerQuery
 /-!
 # A crash from which the node recovers leaves the chain store of before or of after the block
 
@@ -135,5 +136,27 @@ theorem reopen_crashed_after (before after : Node) (m : Mask) (n2 : Node)
       have g3 : n2'.blocks = after.blocks := by rw [f3]; exact hL.to.blocks.symm
       exact ⟨g1, f2, g3, f4, hL.congr g1 f2 g3 f4⟩
     all_goals cases hr
+
+/-- **an idle block changes no account**: the state part of an empty block above height 1, on a state ledger between two blocks,
+leaves every storage row of the database as it was and has nothing to flush — what it adds is the (empty) journal of its height, the
+durable copy of the state root the next block chains on from -/
+theorem stateCommit_idle (l : Ledger.L) (h serial : Nat) (hh : 1 < h) (hno : l.accounts = []) :
+    (stateCommit l h serial []).db.state = l.db.state ∧
+    (Ledger.flush (fun _ => s!"r{h}-{serial}") (Ledger.finalise l)).2.accounts = [] := by
+  have hfl : (Ledger.flush (fun _ => s!"r{h}-{serial}") (Ledger.finalise l)).2.accounts = [] := by
+    unfold Ledger.flush Ledger.finalise
+    simp only [hno, List.map_nil, List.filterMap_nil]
+  refine ⟨?_, hfl⟩
+  unfold stateCommit
+  simp only [List.isEmpty_nil, hh, decide_true, Bool.and_self, if_true]
+  cases hc : Ledger.commit (Ledger.flush (fun _ => s!"r{h}-{serial}") (Ledger.finalise l)).1 h
+      (Ledger.flush (fun _ => s!"r{h}-{serial}") (Ledger.finalise l)).2 with
+  | none => simp only [Option.getD_none]; rfl
+  | some l' =>
+    simp only [Option.getD_some]
+    obtain ⟨e1, _⟩ := Ledger.commit_state_cache h _ hc
+    rw [e1, hfl]
+    rfl
+
 
 end Bxh.Chain
